@@ -380,7 +380,7 @@ import binascii
 def ssh1_crc(data):
     # SSH-1 CRC-32: the IEEE polynomial with zero initial value and no final inversion
     return binascii.crc32(data, 0xffffffff) ^ 0xffffffff
-for n, padbyte in ((9, 0x00), (9, 0x55), (15, 0xff), (40, 0xa7), (5, 0x01)):
+for n, padbyte in ((9, 0x00), (9, 0x55), (15, 0xff), (40, 0xa7), (5, 0x01), (1, 0x00), (1, 0x3c), (2, 0x00), (3, 0x7f), (4, 0x00), (6, 0x10), (7, 0x00), (8, 0x99), (12, 0x00), (13, 0x42)):      # (n == 1: a message with no data, the shortest legal packet: length field 5)
     for good in (True, False):
         cases += 1
         payload = bytes([2]) + bytes((i * 11 + 3) % 256 for i in range(n - 1))
